@@ -316,6 +316,15 @@ func endToEnd(c *mon.Ctx, r *gen.Rand) {
 	if r.Chance(3) {
 		h.Payload = r.Bytes(r.Intn(6))
 	}
+	if r.Chance(6) {
+		// stuffing up to the largest PES_header_data_length the 8-bit field can announce (and just below it)
+		ts := map[byte]int{2: 5, 3: 10}[h.PTSDTS]
+		base := len(ref.PESOptionalFields(fl2, r.Bytes, 0))
+		if target := r.PickInt([]int{200, 240, 245, 246, 247, 248, 250, 254, 255, 255}); target-ts-base >= 0 {
+			h.Extra = ref.PESOptionalFields(fl2, r.Bytes, target-ts-base)
+			c.Count("e2e.pes_header_data_length_200_or_more")
+		}
+	}
 	hb, _ := h.Bytes()
 	if r.Bool() {
 		hb[4], hb[5] = byte((len(hb)-6)>>8), byte(len(hb)-6) // PES_packet_length = bytes that follow the field
@@ -607,5 +616,6 @@ func run(c *mon.Ctx) {
 		c.Class("concurrent-neighbour-bytes")
 	})
 	c.Floor("e2e.tight_field_growth_refused", 2000)
+	c.Floor("e2e.pes_header_data_length_200_or_more", 500)
 	c.Stream("end-to-end", c.N(20000, 30000000), func(i int, r *gen.Rand) { endToEnd(c, r) })
 }
